@@ -1,14 +1,207 @@
 /-
   SpecKitV.Drv.ExtLpsdCore — driver operations of the generated region `LpsdCore` (extension point: `dispatch op` returns
   `some handler` for the operations this file serves).  Mathlib-free.
+
+  The GENERATED definitions of Gen/LpsdCore.lean are executed at `Float`:
+    genlpsdcore      `Gen._lpsd_core`                    (per-bin loop with both caches, dispatch, result rows)
+    gensinglebin     `Gen.single_bin_kernel_section`     (kernel section of compute_single_bin)
+    genplanvalidate  `Gen.plan_validate`                 (plan(): lengths and per-bin tests)
+    genplanband      `Gen.plan_band`                     (plan(): band restriction of every per-bin field)
+  External routines are supplied by the harness as tables computed by the REAL library: the window callable
+  (`np.kaiser(M, beta)` / `win(M)` per requested M — a request the table does not hold, or a Kaiser request with another beta,
+  yields an empty array), `_build_Q(L, order)` per (L, order), `_select_backend(K, hint)` per K.
+  Kernels: the translated Numba kernels (Gen/CoreKernels) and CUDA wrappers (Gen/CudaKernels); the `_np` names are served by the
+  translated Numba kernels too (the NumPy fallbacks differ from them by rounding only; their own translation is another region).
 -/
 import SpecKitV.Drv.Base
+import SpecKitV.Gen.CoreKernels
+import SpecKitV.Gen.CudaKernels
+import SpecKitV.Gen.LpsdCore
 
 namespace Drv.ExtLpsdCore
 open Drv
 
+def numba6 : NpLC.Kernels6 Float :=
+  ⟨Gen._stats_win_only_auto, Gen._stats_win_only_csd, Gen._stats_detrend0_auto, Gen._stats_detrend0_csd,
+   Gen._stats_poly_auto, Gen._stats_poly_csd⟩
+def cuda6 : NpLC.Kernels6 Float :=
+  ⟨Gen._stats_win_only_auto_cuda, Gen._stats_win_only_csd_cuda, Gen._stats_detrend0_auto_cuda, Gen._stats_detrend0_csd_cuda,
+   Gen._stats_poly_auto_cuda, Gen._stats_poly_csd_cuda⟩
+def family : NpLC.KernelFamily Float := NpLC.KernelFamily.ofBackends numba6 cuda6 numba6
+
+def rep {β : Type} (n : Nat) (one : M β) : M (Array β) := do
+  let mut a := Array.mkEmpty n
+  for _ in [0:n] do
+    a := a.push (← one)
+  return a
+
+def intArr : M (Array Int) := do
+  let n ← nat
+  rep n int
+
+def flag : M Bool := do
+  let n ← nat
+  return n != 0
+
+def emptyArr : Arr Float := ⟨0, fun _ => nan⟩
+
+/-- window table: entries (M, beta, values); `call1 M` ignores beta, `call2 M beta` wants the beta the harness used (to 4 ulp) -/
+def winFunc (isK : Bool) (tab : Array (Nat × Float × Array Float)) : NpLC.WinFunc Float :=
+  { isKaiser := isK
+    call1 := fun m => match tab.find? (fun e => e.1 == m) with
+      | some e => arrF e.2.2
+      | none => emptyArr
+    call2 := fun m beta => match tab.find? (fun e => e.1 == m && Float.abs (e.2.1 - beta) ≤ 1e-15 * Float.abs beta) with
+      | some e => arrF e.2.2
+      | none => emptyArr }
+
+def readWinTab : M (Array (Nat × Float × Array Float)) := do
+  let n ← nat
+  rep n (do
+    let m ← nat
+    let beta ← flt
+    let v ← fltArr
+    return (m, beta, v))
+
+def readQTab : M (Array ((Nat × Int) × Arr2 Float)) := do
+  let n ← nat
+  rep n (do
+    let l ← nat
+    let o ← int
+    let q ← arr2
+    return ((l, o), q))
+
+def buildQ (tab : Array ((Nat × Int) × Arr2 Float)) (l : Nat) (o : Int) : Arr2 Float :=
+  match tab.find? (fun e => e.1.1 == l && e.1.2 == o) with
+  | some e => e.2
+  | none => ⟨0, 0, fun _ _ => nan⟩
+
+def readSelTab : M (Array (Nat × String)) := do
+  let n ← nat
+  rep n (do
+    let k ← nat
+    let s ← tok
+    return (k, s))
+
+def selBackend (tab : Array (Nat × String)) (k : Nat) (_hint : String) : String :=
+  match tab.find? (fun e => e.1 == k) with
+  | some e => e.2
+  | none => "unknown-backend"
+
+def b2s (b : Bool) : String := if b then "1" else "0"
+
+/-- `genlpsdcore iscsd order hint fs nx alpha isKaiser x1 x2 wintab qtab seltab nb (f L D)* idx`
+    → `raised | i re im MXX MYY S12 S2 M2 | …` -/
+def opGenLpsdCore : M String := do
+  let iscsd ← flag
+  let order ← int
+  let hint ← tok
+  let fs ← flt
+  let nx ← int
+  let alpha ← flt
+  let isK ← flag
+  let x1 ← fltArr
+  let x2 ← fltArr
+  let wt ← readWinTab
+  let qt ← readQTab
+  let st ← readSelTab
+  let nb ← nat
+  let bins ← rep nb (do
+    let f ← flt
+    let l ← nat
+    let d ← natArr
+    return (f, l, d))
+  let idx ← natArr
+  let pf : Arr Float := ⟨nb, fun i => (bins.getD i (nan, 0, #[])).1⟩
+  let pL : Arr Nat := ⟨nb, fun i => (bins.getD i (nan, 0, #[])).2.1⟩
+  let pD : Arr (Arr Nat) := ⟨nb, fun i => arrN (bins.getD i (nan, 0, #[])).2.2⟩
+  let r := Gen._lpsd_core (α := Float) family (buildQ qt) (selBackend st) (winFunc isK wt) alpha order hint (arrF x1) (arrF x2) iscsd fs nx
+    pL pD pf idx.toList
+  let rows := r.2.map (fun (i, xy, mxx, myy, s12, s2, m2, _) =>
+    s!"{i} {fmt xy.re} {fmt xy.im} {fmt mxx} {fmt myy} {fmt s12} {fmt s2} {fmt m2}")
+  return " | ".intercalate (b2s r.1 :: rows)
+
+/-- `gensinglebin iscsd order hint fs nx alpha isKaiser x1 x2 wintab qtab seltab freq fres segL starts`
+    → `raised XX YY re im S12 S2 M2` -/
+def opGenSingleBin : M String := do
+  let iscsd ← flag
+  let order ← int
+  let hint ← tok
+  let fs ← flt
+  let nx ← int
+  let alpha ← flt
+  let isK ← flag
+  let x1 ← fltArr
+  let x2 ← fltArr
+  let wt ← readWinTab
+  let qt ← readQTab
+  let st ← readSelTab
+  let freq ← flt
+  let fres ← flt
+  let segL ← nat
+  let starts ← natArr
+  let r := Gen.single_bin_kernel_section (α := Float) family (buildQ qt) (selBackend st) (winFunc isK wt) alpha order hint (arrF x1) (arrF x2)
+    iscsd fs nx freq fres segL (arrN starts)
+  let (xx, yy, xy, s12, s2, m2) := r.2
+  return s!"{b2s r.1} {fmt xx} {fmt yy} {fmt xy.re} {fmt xy.im} {fmt s12} {fmt s2} {fmt m2}"
+
+def arrI (a : Array Int) : Arr Int := ⟨a.size, fun i => a.getD i 0⟩
+
+structure PlanIn where
+  f : Array Float
+  r : Array Float
+  b : Array Float
+  L : Array Int
+  K : Array Int
+  navg : Array Int
+  O : Array Float
+  D : Array (Array Int)
+
+def readPlan : M PlanIn := do
+  let f ← fltArr
+  let r ← fltArr
+  let b ← fltArr
+  let l ← intArr
+  let k ← intArr
+  let navg ← intArr
+  let o ← fltArr
+  let nd ← nat
+  let d ← rep nd intArr
+  return ⟨f, r, b, l, k, navg, o, d⟩
+
+def ragged (d : Array (Array Int)) : Arr (Arr Int) := ⟨d.size, fun i => arrI (d.getD i #[])⟩
+
+def showI (a : Arr Int) : String := " ".intercalate ((List.range a.n).map (fun i => toString (a.get i)))
+def showF (a : Arr Float) : String := " ".intercalate ((List.range a.n).map (fun i => fmt (a.get i)))
+
+/-- `genplanvalidate Lmin isLpsd nx plan` → `raised nf nD` -/
+def opGenPlanValidate : M String := do
+  let lmin ← int
+  let isLpsd ← flag
+  let nx ← int
+  let p ← readPlan
+  let r := Gen.plan_validate (α := Float) lmin isLpsd nx (arrF p.f) (arrF p.r) (arrF p.b) (arrI p.L) (arrI p.K) (arrI p.navg) (arrF p.O) (ragged p.D)
+  return s!"{b2s r.1} {r.2.1} {r.2.2.n}"
+
+/-- `genplanband hasBand lo hi plan` → `raised | nf | f | r | b | L | K | navg | O | nD | D0 ; D1 ; …` -/
+def opGenPlanBand : M String := do
+  let has ← flag
+  let lo ← flt
+  let hi ← flt
+  let p ← readPlan
+  let band : Option (Float × Float) := if has then some (lo, hi) else none
+  let r := Gen.plan_band (α := Float) band (arrF p.f) (arrF p.r) (arrF p.b) (arrI p.L) (arrI p.K) (arrI p.navg) (arrF p.O) (ragged p.D)
+    (p.f.size : Int) (p.D.toList.map arrI)
+  let (f, rr, b, l, k, navg, o, d, nf) := r.2
+  let ds := " ; ".intercalate ((List.range d.n).map (fun i => showI (d.get i)))
+  return s!"{b2s r.1} | {nf} | {showF f} | {showF rr} | {showF b} | {showI l} | {showI k} | {showI navg} | {showF o} | {d.n} | {ds}"
+
 def dispatch (op : String) : Option (M String) :=
   match op with
+  | "genlpsdcore" => some opGenLpsdCore
+  | "gensinglebin" => some opGenSingleBin
+  | "genplanvalidate" => some opGenPlanValidate
+  | "genplanband" => some opGenPlanBand
   | _ => none
 
 end Drv.ExtLpsdCore
